@@ -449,7 +449,31 @@ class _KeywordSomeArguments(ast.NodeTransformer):
         return node
 
 
+class _ExtractWindowHelper(ast.NodeTransformer):
+    """`(g.timepoints >= a) & (g.timepoints < b)` -> `g.steps_in_(a, b)` with a new method Timegrid.steps_in_ that returns the same mask:
+    the refactoring a maintainer makes when the third copy of the window test appears (behaviour preserving)."""
+
+    def visit_BinOp(self, node):
+        self.generic_visit(node)
+        if not (isinstance(node.op, ast.BitAnd) and isinstance(node.left, ast.Compare) and isinstance(node.right, ast.Compare)):
+            return node
+        l, r = node.left, node.right
+        if not (len(l.ops) == 1 and len(r.ops) == 1 and isinstance(l.ops[0], ast.GtE) and isinstance(r.ops[0], ast.Lt)):
+            return node
+        if not (isinstance(l.left, ast.Attribute) and l.left.attr == "timepoints" and ast.unparse(l.left) == ast.unparse(r.left)):
+            return node
+        return ast.Call(func=ast.Attribute(value=l.left.value, attr="steps_in_", ctx=ast.Load()), args=[l.comparators[0], r.comparators[0]], keywords=[])
+
+    def visit_ClassDef(self, node):
+        self.generic_visit(node)
+        if node.name == "Timegrid":
+            helper = ast.parse("def steps_in_(self, start, end):\n    return (self.timepoints >= start) & (self.timepoints < end)\n").body[0]
+            node.body.append(helper)
+        return node
+
+
 TWINS = {
+    "extract-window-helper": _ExtractWindowHelper,
     "keyword-arguments-30pct": _KeywordSomeArguments,
     "mirror-comparisons-30pct": _MirrorSomeComparisons,
     "swap-independent-neighbours-30pct": _SwapIndependentNeighbours,
